@@ -123,6 +123,12 @@ def generate(rng, tier):
         parents = list(before)
         if rng.random() < 0.25:
             parents.append(f"ABSENT.{rng.randrange(3)}")
+        if "." in sid and rng.random() < 0.12:
+            # a reference by the SHORT name of a sibling in the same group: no such id exists (ids are absolute)
+            group = sid.rsplit(".", 1)[0] + "."
+            sibs = [x[len(group):] for x in order if x.startswith(group) and x != sid and "." not in x[len(group):]]
+            if sibs:
+                parents = [rng.choice(sibs)]
         if rng.random() < 0.3:
             parents = []
         return colorgen.gen_descr(rng, parents, dash_ok)
